@@ -632,3 +632,36 @@ def guards_imply(gs, target):
         if all(_truth(e, val) == pol for e, pol in gs) and not _truth(target, val):
             return False
     return True
+
+
+def equivalent(a, b):
+    """Propositional equivalence of two boolean expressions (atoms by text)."""
+    import itertools
+    if isinstance(a, str):
+        a = ast.parse(a, mode='eval').body
+    if isinstance(b, str):
+        b = ast.parse(b, mode='eval').body
+    atoms = []
+    _atoms(a, atoms)
+    _atoms(b, atoms)
+    if len(atoms) > 12:
+        return False
+    for bits in itertools.product([False, True], repeat=len(atoms)):
+        val = dict(zip(atoms, bits))
+        if _truth(a, val) != _truth(b, val):
+            return False
+    return True
+
+
+def value_referrers(ctx, func):
+    """Functions of the same module that mention func as a value (self.f / f not called),
+    e.g. functools.partial(self.f, ...) or executor.submit(self.f)."""
+    out = []
+    for f in ctx.p.all_functions():
+        if f.module is not func.module or f is func:
+            continue
+        for n in own_nodes(f.node):
+            if isinstance(n, ast.Attribute) and n.attr == func.name and not (isinstance(n._parent, ast.Call) and n._parent.func is n):
+                if isinstance(n.value, ast.Name) and n.value.id == 'self' and f.cls is not None and func.cls is not None and (f.cls is func.cls or func.cls in f.cls.mro()):
+                    out.append((f, n))
+    return out
